@@ -154,3 +154,13 @@ def subst_placeholders_reply(reply):
     def conv(tok):
         return cps(subst_placeholders(uncps(tok)))
     return "ok " + ";".join(">".join(conv(x) for x in e.split(">")) for e in body.split(";"))
+
+
+def model_out_text(reply):
+    """model reply of `fatext` reduced to the output text"""
+    if not reply.startswith("ok "):
+        return reply
+    parts = reply.split(" ")
+    if len(parts) < 2:
+        return reply
+    return "ok " + cps(subst_placeholders(uncps(parts[1])))
